@@ -76,6 +76,7 @@ Section Inv.
   Variable U : list addr.              (* the references the history operates on *)
   Variable base : addr -> N.           (* pin counters while none of them is pinned *)
   Hypothesis HU : NoDup U.
+  Hypothesis Hpr : forall r, In r U -> probe cs dm r = PROk.
   Hypothesis Hst : forall r, In r U -> stored cs dm r (tl r).
   Hypothesis Hfit : forall c, base c + total_all U c < W64.
 
@@ -210,30 +211,80 @@ Section Inv.
     | PDelete _ r | PApiUnpin _ r => Some (r, false)
     | _ => None
     end.
+  (** a reference of a history is one of [U] (stored) or one whose root chunk
+      (or a chunk below it) is missing: the probe answers not-found *)
+  Definition refok (r : addr) : Prop := In r U \/ probe cs dm r = PRNotFound.
   Definition allowed (o : pop) : Prop :=
     match o with
-    | PCreate _ r true | PDelete _ r | PApiPin _ r | PApiUnpin _ r => In r U
+    | PCreate _ r true | PDelete _ r | PApiPin _ r | PApiUnpin _ r => refok r
     | PHas _ | PPins | PApiGet _ | PApiList | PApiBad _ => True
     | _ => False
     end.
+  (** the listing after an operation: an unpin unlists, a pin lists if the reference is stored *)
   Definition upd (o : pop) (k : addr) (d : bool) : bool :=
-    match op_ref o with Some (r, b) => if bytes_eqb r k then b else d | None => d end.
+    match op_ref o with
+    | Some (r, b) =>
+        if bytes_eqb r k
+        then (if b then match probe cs dm r with PROk => true | _ => d end else false)
+        else d
+    | None => d
+    end.
+
+  Lemma with_ls_same ps : with_ls ps (p_ls ps) = ps.
+  Proof. destruct ps; reflexivity. Qed.
+
+  (** operations on a reference that is not stored *)
+  Lemma absent_unlisted r ps : Inv ps -> probe cs dm r = PRNotFound -> has_pin ps r = false.
+  Proof.
+    intros HI Hn. rewrite has_pin_listed by exact (inv_roots ps HI).
+    destruct (listedb (p_roots ps) r) eqn:E; [|reflexivity].
+    apply (inv_sub ps HI) in E. rewrite (Hpr r E) in Hn. discriminate.
+  Qed.
+  Lemma create_pin_absent t r ps : Inv ps -> probe cs dm r = PRNotFound ->
+    create_pin cs capacity t r true ps = (ps, PFail PENotFound).
+  Proof.
+    intros HI Hn. unfold create_pin. rewrite (absent_unlisted r ps HI Hn). unfold traverse.
+    rewrite (inv_dm ps HI), Hn. cbn [perr_of]. now rewrite with_ls_same.
+  Qed.
+  Lemma delete_pin_absent t r ps : Inv ps -> probe cs dm r = PRNotFound ->
+    delete_pin cs capacity t r ps = (ps, POk).
+  Proof. intros HI Hn. unfold delete_pin. now rewrite (absent_unlisted r ps HI Hn). Qed.
 
   Lemma step_inv ps o : Inv ps -> allowed o ->
     Inv (fst (pstep cs capacity po ps o)) /\
     forall k, listedb (p_roots (fst (pstep cs capacity po ps o))) k = upd o k (listedb (p_roots ps) k).
   Proof.
-    intros HI Ha. destruct o; cbn [allowed] in Ha; cbn [pstep]; try (split; [exact HI|reflexivity]); try tauto.
-    - destruct trav; [|tauto]. destruct (create_pin_step t ref ps HI Ha) as (ps' & E & HI' & _ & Hl). rewrite E. cbn [fst].
-      split; [exact HI'|exact Hl].
-    - destruct (delete_pin_step t ref ps HI Ha) as (ps' & E & HI' & _ & Hl). rewrite E. cbn [fst].
-      split; [exact HI'|exact Hl].
-    - rewrite (api_pin_step t ref ps HI Ha). cbn [fst].
-      destruct (create_pin_step t ref ps HI Ha) as (ps' & E & HI' & _ & Hl). rewrite E. cbn [fst].
-      split; [exact HI'|exact Hl].
-    - rewrite (api_unpin_step t ref ps HI Ha). cbn [fst].
-      destruct (delete_pin_step t ref ps HI Ha) as (ps' & E & HI' & _ & Hl). rewrite E. cbn [fst].
-      split; [exact HI'|exact Hl].
+    intros HI Ha.
+    assert (Habs : forall r k (b : bool), probe cs dm r = PRNotFound ->
+              listedb (p_roots ps) k =
+              (if bytes_eqb r k then (if b then match probe cs dm r with PROk => true | _ => listedb (p_roots ps) k end else false)
+               else listedb (p_roots ps) k)).
+    { intros r k b Hn. destruct (bytes_eqb r k) eqn:E; [|reflexivity]. apply bytes_eqb_eq in E. subst k.
+      rewrite Hn. destruct b; [reflexivity|].
+      rewrite <- (has_pin_listed ps r (inv_roots ps HI)). exact (absent_unlisted r ps HI Hn). }
+    destruct o; cbn [allowed] in Ha; cbn [pstep]; try (split; [exact HI|reflexivity]); try tauto.
+    - destruct trav; [|tauto]. destruct Ha as [Ha|Hn].
+      + destruct (create_pin_step t ref ps HI Ha) as (ps' & E & HI' & _ & Hl). rewrite E. cbn [fst].
+        split; [exact HI'|]. intros k. rewrite Hl. unfold upd. cbn [op_ref]. now rewrite (Hpr ref Ha).
+      + rewrite (create_pin_absent t ref ps HI Hn). cbn [fst]. split; [exact HI|].
+        intros k. unfold upd. cbn [op_ref]. exact (Habs ref k true Hn).
+    - destruct Ha as [Ha|Hn].
+      + destruct (delete_pin_step t ref ps HI Ha) as (ps' & E & HI' & _ & Hl). rewrite E. cbn [fst].
+        split; [exact HI'|exact Hl].
+      + rewrite (delete_pin_absent t ref ps HI Hn). cbn [fst]. split; [exact HI|].
+        intros k. unfold upd. cbn [op_ref]. exact (Habs ref k false Hn).
+    - destruct Ha as [Ha|Hn].
+      + rewrite (api_pin_step t ref ps HI Ha). cbn [fst].
+        destruct (create_pin_step t ref ps HI Ha) as (ps' & E & HI' & _ & Hl). rewrite E. cbn [fst].
+        split; [exact HI'|]. intros k. rewrite Hl. unfold upd. cbn [op_ref]. now rewrite (Hpr ref Ha).
+      + unfold api_pin. rewrite (absent_unlisted ref ps HI Hn), (create_pin_absent t ref ps HI Hn). cbn [fst].
+        split; [exact HI|]. intros k. unfold upd. cbn [op_ref]. exact (Habs ref k true Hn).
+    - destruct Ha as [Ha|Hn].
+      + rewrite (api_unpin_step t ref ps HI Ha). cbn [fst].
+        destruct (delete_pin_step t ref ps HI Ha) as (ps' & E & HI' & _ & Hl). rewrite E. cbn [fst].
+        split; [exact HI'|exact Hl].
+      + unfold api_unpin. rewrite (absent_unlisted ref ps HI Hn). cbn [negb fst]. split; [exact HI|].
+        intros k. unfold upd. cbn [op_ref]. exact (Habs ref k false Hn).
   Qed.
 
   Fixpoint last_op (h : list pop) (k : addr) (d : bool) : bool :=
